@@ -19,22 +19,23 @@ import (
 const modPath = "github.com/oauth2-proxy/oauth2-proxy/v7"
 
 type Engine struct {
-	repo, verif string
-	prog        *ssa.Program
-	pkgs        []*packages.Package
-	allPkgs     map[string]*packages.Package
-	specs       *SpecDB
-	globalsSeen map[string]bool
-	globalVals  map[string]*ssa.Global
-	funcs       map[string]*ssa.Function // pkgpath::relname -> fn (repo only)
-	allFns      map[*ssa.Function]bool
-	mutGlobals  map[*ssa.Global]bool // globals stored to outside init
-	sweepMode   bool
-	sweepProps  []string
-	loadSecs    float64
-	aliasCache  map[string]map[string]*types.Package
-	byFull      map[string]*ssa.Function
-	sentinels   map[*ssa.Global]bool // error globals initialised once by errors.New / fmt.Errorf
+	repo, verif   string
+	prog          *ssa.Program
+	pkgs          []*packages.Package
+	allPkgs       map[string]*packages.Package
+	specs         *SpecDB
+	globalsSeen   map[string]bool
+	ifaceEnsCache map[*ssa.Function][]*Clause
+	globalVals    map[string]*ssa.Global
+	funcs         map[string]*ssa.Function // pkgpath::relname -> fn (repo only)
+	allFns        map[*ssa.Function]bool
+	mutGlobals    map[*ssa.Global]bool // globals stored to outside init
+	sweepMode     bool
+	sweepProps    []string
+	loadSecs      float64
+	aliasCache    map[string]map[string]*types.Package
+	byFull        map[string]*ssa.Function
+	sentinels     map[*ssa.Global]bool // error globals initialised once by errors.New / fmt.Errorf
 }
 
 func loadEngine(repo, verif string, patterns []string) (*Engine, error) {
@@ -777,4 +778,23 @@ func (eng *Engine) notFreshCall(c *ssa.Call) string {
 		return "result of " + fullName(f) + " (no `fresh` contract)"
 	}
 	return "result of a dynamic call"
+}
+
+// ifaceEnsuresFor: the ensures clauses fn inherits from interface-method contracts, with the interface method's parameter
+// names bound to fn's own (cached).
+func (eng *Engine) ifaceEnsuresFor(fn *ssa.Function) []*Clause {
+	if eng.ifaceEnsCache == nil {
+		eng.ifaceEnsCache = map[*ssa.Function][]*Clause{}
+	}
+	if c, ok := eng.ifaceEnsCache[fn]; ok {
+		return c
+	}
+	var out []*Clause
+	for _, c := range eng.ifaceClausesFor(fn) {
+		if c.Kind == "ensures" {
+			out = append(out, c)
+		}
+	}
+	eng.ifaceEnsCache[fn] = out
+	return out
 }
